@@ -139,39 +139,79 @@ pub fn prepare(root: &Path) {
     w(&t.join("d"), "bé", "y");
 }
 
-/// Names of environment variables the library reads (source lint), and reads with computed names.
+/// Names of environment variables the library reads (source lint over /repo/src outside test
+/// modules): `var("X")` / `var_os("X")` in any spelling of the path, names given through a `const`
+/// or `static` string defined anywhere in the sources, and - reported separately - reads whose
+/// name the lint cannot resolve, plus `env::vars()` and `env!` / `option_env!`.
 pub fn library_env_reads() -> (Vec<String>, Vec<String>) {
-    let mut names = vec![];
-    let mut computed = vec![];
-    let mut stack = vec![PathBuf::from("/repo/src")];
+    let mut files: Vec<(String, String)> = vec![];
+    let mut stack = vec![PathBuf::from(std::env::var("ITV_LINT_SRC").unwrap_or("/repo/src".into()))];
     while let Some(d) = stack.pop() {
         let Ok(rd) = std::fs::read_dir(&d) else { continue };
         for e in rd.flatten() {
             let p = e.path();
             if p.is_dir() {
                 stack.push(p);
-                continue;
+            } else if p.extension().map(|x| x == "rs").unwrap_or(false) && !p.ends_with("verif_hooks.rs") {
+                let txt = std::fs::read_to_string(&p).unwrap_or_default();
+                files.push((p.strip_prefix("/repo").unwrap_or(&p).display().to_string(), txt.split("#[cfg(test)]").next().unwrap_or("").to_string()));
             }
-            if p.extension().map(|x| x != "rs").unwrap_or(true) || p.ends_with("verif_hooks.rs") {
-                continue;
-            }
-            let txt = std::fs::read_to_string(&p).unwrap_or_default();
-            let txt = txt.split("#[cfg(test)]").next().unwrap_or("").to_string();
-            for (i, line) in txt.lines().enumerate() {
-                let l = line.trim();
-                if l.starts_with("//") {
-                    continue;
-                }
-                for pat in ["env::var(", "env::var_os(", "env::vars(", "env::vars_os("] {
-                    if let Some(pos) = l.find(pat) {
-                        let rest = &l[pos + pat.len()..];
-                        if let Some(stripped) = rest.trim_start().strip_prefix('"') {
-                            if let Some(end) = stripped.find('"') {
-                                names.push(stripped[..end].to_string());
-                                continue;
-                            }
+        }
+    }
+    // string constants: NAME -> value
+    let mut consts: BTreeMap<String, String> = BTreeMap::new();
+    for (_, txt) in &files {
+        for line in txt.lines() {
+            let l = line.trim();
+            for kw in ["const ", "static "] {
+                if let Some(pos) = l.find(kw) {
+                    let rest = &l[pos + kw.len()..];
+                    if let (Some(colon), Some(q1)) = (rest.find(':'), rest.find('"')) {
+                        if let Some(q2) = rest[q1 + 1..].find('"') {
+                            consts.insert(rest[..colon].trim().to_string(), rest[q1 + 1..q1 + 1 + q2].to_string());
                         }
-                        computed.push(format!("{}:{}: {}", p.strip_prefix("/repo").unwrap_or(&p).display(), i + 1, l));
+                    }
+                }
+            }
+        }
+    }
+    let mut names = vec![];
+    let mut computed = vec![];
+    for (file, txt) in &files {
+        let mentions_env = txt.contains("env::") || txt.contains("std::env") || txt.contains("env!");
+        for (i, line) in txt.lines().enumerate() {
+            let l = line.trim();
+            if l.starts_with("//") {
+                continue;
+            }
+            for pat in ["vars(", "vars_os(", "option_env!(", "env!("] {
+                if mentions_env && (l.contains(&format!("env::{pat}")) || (pat.ends_with("!(") && l.contains(pat))) {
+                    computed.push(format!("{file}:{}: {l}", i + 1));
+                }
+            }
+            for pat in ["var(", "var_os("] {
+                let mut from = 0;
+                while let Some(pos) = l[from..].find(pat) {
+                    let at = from + pos;
+                    from = at + pat.len();
+                    // `env::var(`, `std::env::var(`, or a bare `var(` in a file that imports it
+                    let before = &l[..at];
+                    let qualified = before.ends_with("env::");
+                    let bare = (before.is_empty() || !before.chars().last().map(|c| c.is_alphanumeric() || c == '_' || c == '.' || c == ':').unwrap_or(false)) && mentions_env && txt.contains("env::{") | txt.contains("env::var");
+                    if !qualified && !bare {
+                        continue;
+                    }
+                    let arg = l[from..].trim_start();
+                    if let Some(stripped) = arg.strip_prefix('"') {
+                        if let Some(end) = stripped.find('"') {
+                            names.push(stripped[..end].to_string());
+                            continue;
+                        }
+                    }
+                    let ident: String = arg.chars().take_while(|c| c.is_alphanumeric() || *c == '_' || *c == ':').collect();
+                    match consts.get(ident.rsplit("::").next().unwrap_or("")) {
+                        Some(v) => names.push(v.clone()),
+                        None => computed.push(format!("{file}:{}: {l}", i + 1)),
                     }
                 }
             }
@@ -179,6 +219,8 @@ pub fn library_env_reads() -> (Vec<String>, Vec<String>) {
     }
     names.sort();
     names.dedup();
+    computed.sort();
+    computed.dedup();
     (names, computed)
 }
 
@@ -315,7 +357,9 @@ pub fn judge(acc: &mut crate::report::Acc, prefix: &str, extra: &mut serde_json:
         );
     }
     for c in &r.computed_env_reads {
-        acc.note(&format!("library reads an environment variable with a computed name: {c}"));
+        // the probe cannot set a variable whose name it cannot resolve: what the library does with it is
+        // outside what this run explored; said loudly, and counted
+        acc.note(&format!("UNRESOLVED environment read in the library (not varied by the probe): {c}"));
     }
     extra.insert(
         "environment_probe".into(),
